@@ -27,6 +27,7 @@ type Program struct {
 	Contracts *Contracts
 	ModPath   string
 	roMemo    map[*FuncInfo]int
+	rroMemo   map[*FuncInfo]int
 	cg        map[string][]string
 }
 
